@@ -1,7 +1,7 @@
 //! vh: the conformance harness.  Drives the real minicbor code; contains no CBOR oracle.
 mod abs;
 mod ops;
-mod gen;
+pub mod gen;
 mod cbgen;
 #[cfg(feature = "io")]
 mod frames;
@@ -12,6 +12,8 @@ mod awrite;
 #[cfg(feature = "io")]
 mod bio;
 mod alloc;
+#[cfg(feature = "std")]
+mod types;
 #[cfg(all(feature = "alloc", feature = "half"))]
 mod toks;
 #[cfg(all(feature = "alloc", feature = "half"))]
@@ -55,6 +57,7 @@ fn cmd_cases(args: &[String]) -> i32 {
         }
         #[cfg(all(feature = "alloc", feature = "half"))]
         let ok = if c["fam"] == "display" { disp::matches(&obs, &c["exp"]) }
+                 else if c["fam"] == "typed" { types::matches(&obs, &c["exp"]) }
                  else if c["fam"] == "tok" { toks::matches(c["name"].as_str().unwrap(), &obs, &c["exp"]) }
                  else { abs::matches(&obs, &c["exp"]) };
         #[cfg(not(all(feature = "alloc", feature = "half")))]
